@@ -52,6 +52,13 @@ Select(blocks, q) ==
         lss == { FullLs(h[1], h[2]) : h \in hits }
     IN  { [ls |-> L, chunks |-> UNION { ChunksIn(h[2], q.mint, q.maxt) : h \in { x \in hits : FullLs(x[1], x[2]) = L } }] : L \in lss }
 
+(* Chunk contents: c[3] is <<crc>> for a raw chunk; for an aggregate chunk of a downsampled block *)
+(* the five sub-chunks <<count, sum, min, max, counter>>.  "chunk contents ... for the requested  *)
+(* aggregates": of an aggregate chunk exactly the requested sub-chunks come back (A = set of      *)
+(* requested aggregate numbers 1..5, -1 = not returned); a raw chunk comes back whole.            *)
+ProjChunk(c, A) == IF Len(c[3]) = 1 THEN c ELSE <<c[1], c[2], [k \in 1..5 |-> IF k \in A THEN c[3][k] ELSE 0 - 1]>>
+ProjSeries(s, A) == [id |-> s.id, ls |-> s.ls, chunks |-> [k \in DOMAIN s.chunks |-> ProjChunk(s.chunks[k], A)]]
+
 (* ids of the series of one block (without external labels) that the matchers select *)
 SelectIds(series, ms) == { s.id : s \in { x \in series : \A m \in ms : Matches(m, LVal(x.ls, m.name)) } }
 
@@ -155,6 +162,16 @@ LazyChoices(series, ms) ==
 (* chunks in the range first" makes PostingsMC fail on a narrow-then-wide history.)               *)
 LazyCacheIgnoresRange == TRUE
 StoredInCache(ids, inRangeIds, lazy) == IF lazy = {} \/ LazyCacheIgnoresRange THEN ids ELSE ids \cap inRangeIds
+
+(* populateChunk: a raw (XOR) chunk is copied to Raw; of an aggregate chunk the sub-chunk of each  *)
+(* requested aggregate, in request order, goes into its own field; the other fields stay empty.   *)
+(* aggrs = the request's aggregate list (a sequence, may repeat).                                  *)
+RECURSIVE PopulateFrom(_, _, _)
+PopulateFrom(c, aggrs, out) ==
+    IF aggrs = <<>> THEN out
+    ELSE PopulateFrom(c, Tail(aggrs), [out EXCEPT ![Head(aggrs)] = c[3][Head(aggrs)]])
+PopulateChunk(c, aggrs) ==
+    IF Len(c[3]) = 1 THEN c ELSE <<c[1], c[2], PopulateFrom(c, aggrs, [k \in 1..5 |-> 0 - 1])>>
 
 (* decodeSeriesForTime: walk the chunk metas in order, stop at the first chunk that starts       *)
 (* after the range, keep those that end at or after its start                                    *)
